@@ -317,9 +317,11 @@ static void check_string_all_flags(const char *s, uint64_t id)
 }
 
 /* ---------------- domain str ---------------- */
-static const char ALPHA[] = "a1:/?#@[]%.-";
-#define NALPHA 12
+static const char *ALPHA = "a1:/?#@[]%.-";   /* -P alpha=... replaces it */
+static int NALPHA = 12;
+static int str_exact;                 /* -P exact=1: only strings of length == len */
 static int str_maxlen = 5;
+static const char *str_prefix = "";   /* -P prefix=...: every enumerated string is appended to it */
 
 static uint64_t count_strings(int base, int maxlen)
 {
@@ -330,11 +332,14 @@ static uint64_t count_strings(int base, int maxlen)
 
 static void item_str(uint64_t i)
 {
-	char s[32]; uint64_t idx = i, cnt = 1; int k = 0;
-	while (idx >= cnt) { idx -= cnt; cnt *= NALPHA; k++; }
+	char buf[48], *s; uint64_t idx = i, cnt = 1; int k = 0;
+	size_t pl = strlen(str_prefix);
+	memcpy(buf, str_prefix, pl); s = buf + pl;
+	if (str_exact) k = str_maxlen;
+	else while (idx >= cnt) { idx -= cnt; cnt *= (uint64_t)NALPHA; k++; }
 	for (int j = k - 1; j >= 0; j--) { s[j] = ALPHA[idx % NALPHA]; idx /= NALPHA; }
 	s[k] = 0;
-	check_string_all_flags(s, i);
+	check_string_all_flags(buf, i);
 }
 
 /* ---------------- domain gram ---------------- */
@@ -413,52 +418,20 @@ static int first_segment_has_colon(const char *p)
 
 struct cause { const char *name; int active; unsigned explains; int explains_failure; };
 
-static void item_set(uint64_t i)
+/* Common oracle of the setter domains: the built URI u (flags fl) must either be
+ * refused by join or join into a string that parses with fl into the values the
+ * getters report now.  Frees u. */
+static void judge_built(struct evhttp_uri *u, unsigned fl, uint64_t i, unsigned accepted)
 {
 	static char joined[4096];
-	uint64_t x = i;
-	int fr = (int)(x % N(S_FRAG)); x /= N(S_FRAG);
-	int qu = (int)(x % N(S_QUERY)); x /= N(S_QUERY);
-	int pa = (int)(x % N(S_PATH)); x /= N(S_PATH);
-	int po = (int)(x % N(S_PORT)); x /= N(S_PORT);
-	int un = (int)(x % N(S_UNIX)); x /= N(S_UNIX);
-	int ho = (int)(x % N(S_HOST)); x /= N(S_HOST);
-	int us = (int)(x % N(S_USER)); x /= N(S_USER);
-	int sc = (int)(x % N(S_SCHEME)); x /= N(S_SCHEME);
-	unsigned fl = FLAGSETS[x];
-	struct comps b, c2; unsigned m, accepted = 0;
+	struct comps b, c2; unsigned m;
+	struct evhttp_uri *u2 = NULL;
 	memset(&c2, 0, sizeof c2);
-	struct evhttp_uri *u, *u2 = NULL;
-
+	get_comps(u, &b);
+	if (mc_replaying()) printf("  accepted-mask=%#x built: %s\n", accepted, vis_comps(&b));
 	/* A unix socket can only come out of a parse with EVHTTP_URI_UNIX_SOCKET, so
 	 * "parses with the same flags" is only meaningful for it with that flag. */
-	if (strcmp(S_UNIX[un], UNSET) && !(fl & EVHTTP_URI_UNIX_SOCKET)) { MC_COUNT("set_skipped_unixsocket_without_flag"); return; }
-
-	live0 = mcx_alloc_live();
-	u = evhttp_uri_new();
-	if (!u) { mc_fail("harness:uri_new", "evhttp_uri_new failed"); return; }
-	evhttp_uri_set_flags(u, fl);
-#define SET(fn, v, bit) do { if (strcmp((v), UNSET)) { MC_COUNT("setter_calls"); if (fn(u, (v)) == 0) accepted |= BIT(bit); else MC_COUNT("setter_rejections"); } } while (0)
-	SET(evhttp_uri_set_scheme, S_SCHEME[sc], C_SCHEME);
-	SET(evhttp_uri_set_userinfo, S_USER[us], C_USERINFO);
-	if (strchr(S_HOST[ho], '>')) {
-		char first[16]; const char *second = strchr(S_HOST[ho], '>') + 1;
-		snprintf(first, sizeof first, "%.*s", (int)(second - 1 - S_HOST[ho]), S_HOST[ho]);
-		MC_COUNTN("setter_calls", 2);
-		if (evhttp_uri_set_host(u, first) != 0) MC_COUNT("setter_rejections");
-		if (evhttp_uri_set_host(u, strcmp(second, "~") ? second : NULL) == 0) accepted |= BIT(C_HOST); else MC_COUNT("setter_rejections");
-	} else
-	SET(evhttp_uri_set_host, S_HOST[ho], C_HOST);
-	SET(evhttp_uri_set_unixsocket, S_UNIX[un], C_UNIX);
-	MC_COUNT("setter_calls");
-	if (evhttp_uri_set_port(u, S_PORT[po]) == 0) accepted |= BIT(C_PORT); else MC_COUNT("setter_rejections");
-	SET(evhttp_uri_set_path, S_PATH[pa], C_PATH);
-	SET(evhttp_uri_set_query, S_QUERY[qu], C_QUERY);
-	SET(evhttp_uri_set_fragment, S_FRAG[fr], C_FRAG);
-	get_comps(u, &b);
-	if (mc_replaying())
-		printf("SETTERS flags=%#x scheme<-%s userinfo<-%s host<-%s unix<-%s port<-%d path<-%s query<-%s fragment<-%s\n  accepted-mask=%#x built: %s\n",
-		    fl, vis(S_SCHEME[sc]), vis(S_USER[us]), vis(S_HOST[ho]), vis(S_UNIX[un]), S_PORT[po], vis(S_PATH[pa]), vis(S_QUERY[qu]), vis(S_FRAG[fr]), accepted, vis_comps(&b));
+	if (b.s[C_UNIX] && !(fl & EVHTTP_URI_UNIX_SOCKET)) { MC_COUNT("set_skipped_unixsocket_without_flag"); goto out; }
 
 	MC_COUNT("oracle_set_join_attempted");
 	if (!evhttp_uri_join(u, joined, sizeof joined)) {
@@ -537,6 +510,108 @@ out:
 	if (mc_replaying() || (i & 0xfff) == 1) mc_observe("set-item %llu flags=%#x accepted=%#x", (unsigned long long)i, fl, accepted);
 }
 
+static void item_set(uint64_t i)
+{
+	uint64_t x = i;
+	int fr = (int)(x % N(S_FRAG)); x /= N(S_FRAG);
+	int qu = (int)(x % N(S_QUERY)); x /= N(S_QUERY);
+	int pa = (int)(x % N(S_PATH)); x /= N(S_PATH);
+	int po = (int)(x % N(S_PORT)); x /= N(S_PORT);
+	int un = (int)(x % N(S_UNIX)); x /= N(S_UNIX);
+	int ho = (int)(x % N(S_HOST)); x /= N(S_HOST);
+	int us = (int)(x % N(S_USER)); x /= N(S_USER);
+	int sc = (int)(x % N(S_SCHEME)); x /= N(S_SCHEME);
+	unsigned fl = FLAGSETS[x];
+	unsigned accepted = 0;
+	struct evhttp_uri *u;
+
+	/* A unix socket can only come out of a parse with EVHTTP_URI_UNIX_SOCKET, so
+	 * "parses with the same flags" is only meaningful for it with that flag. */
+	if (strcmp(S_UNIX[un], UNSET) && !(fl & EVHTTP_URI_UNIX_SOCKET)) { MC_COUNT("set_skipped_unixsocket_without_flag"); return; }
+
+	live0 = mcx_alloc_live();
+	u = evhttp_uri_new();
+	if (!u) { mc_fail("harness:uri_new", "evhttp_uri_new failed"); return; }
+	evhttp_uri_set_flags(u, fl);
+#define SET(fn, v, bit) do { if (strcmp((v), UNSET)) { MC_COUNT("setter_calls"); if (fn(u, (v)) == 0) accepted |= BIT(bit); else MC_COUNT("setter_rejections"); } } while (0)
+	SET(evhttp_uri_set_scheme, S_SCHEME[sc], C_SCHEME);
+	SET(evhttp_uri_set_userinfo, S_USER[us], C_USERINFO);
+	if (strchr(S_HOST[ho], '>')) {
+		char first[16]; const char *second = strchr(S_HOST[ho], '>') + 1;
+		snprintf(first, sizeof first, "%.*s", (int)(second - 1 - S_HOST[ho]), S_HOST[ho]);
+		MC_COUNTN("setter_calls", 2);
+		if (evhttp_uri_set_host(u, first) != 0) MC_COUNT("setter_rejections");
+		if (evhttp_uri_set_host(u, strcmp(second, "~") ? second : NULL) == 0) accepted |= BIT(C_HOST); else MC_COUNT("setter_rejections");
+	} else
+	SET(evhttp_uri_set_host, S_HOST[ho], C_HOST);
+	SET(evhttp_uri_set_unixsocket, S_UNIX[un], C_UNIX);
+	MC_COUNT("setter_calls");
+	if (evhttp_uri_set_port(u, S_PORT[po]) == 0) accepted |= BIT(C_PORT); else MC_COUNT("setter_rejections");
+	SET(evhttp_uri_set_path, S_PATH[pa], C_PATH);
+	SET(evhttp_uri_set_query, S_QUERY[qu], C_QUERY);
+	SET(evhttp_uri_set_fragment, S_FRAG[fr], C_FRAG);
+	if (mc_replaying())
+		printf("SETTERS flags=%#x scheme<-%s userinfo<-%s host<-%s unix<-%s port<-%d path<-%s query<-%s fragment<-%s\n",
+		    fl, vis(S_SCHEME[sc]), vis(S_USER[us]), vis(S_HOST[ho]), vis(S_UNIX[un]), S_PORT[po], vis(S_PATH[pa]), vis(S_QUERY[qu]), vis(S_FRAG[fr]));
+	judge_built(u, fl, i, accepted);
+}
+
+/* ---------------- domain seq ---------------- */
+/* Multi-step use of the setters: a start URI (fresh, or parsed from a string with
+ * the flag set) followed by `steps` setter calls drawn from SEQ_OPS, in every
+ * order and combination; then the common oracle.  This reaches states single-shot
+ * construction cannot (a component set, then changed or cleared; setters applied
+ * to what the parser built, e.g. a bracket-stripped host replaced by a name). */
+static const char *SEQ_START[] = { NULL /* evhttp_uri_new */, "http://[::1]:80/p?q#f", "//u@h", "/p", "http://[v1.a]", "s://unix:/s:/p" };
+static const struct { char what; const char *v; int port; } SEQ_OPS[] = {
+	{ 's', NULL, 0 }, { 's', "http", 0 },
+	{ 'u', NULL, 0 }, { 'u', "u:p", 0 },
+	{ 'h', NULL, 0 }, { 'h', "", 0 }, { 'h', "h", 0 }, { 'h', "1.2.3.4", 0 }, { 'h', "[::1]", 0 }, { 'h', "[v1.a]", 0 }, { 'h', "[::1", 0 },
+	{ 'n', NULL, -1 }, { 'n', NULL, 80 },
+	{ 'p', NULL, 0 }, { 'p', "", 0 }, { 'p', "/p", 0 }, { 'p', "p", 0 },
+	{ 'q', NULL, 0 }, { 'q', "q=1", 0 },
+	{ 'f', NULL, 0 }, { 'f', "f", 0 },
+	{ 'x', NULL, 0 }, { 'x', "/s", 0 },
+};
+static int seq_steps = 3;
+static uint64_t seq_count(void)
+{
+	uint64_t n = 8ull * N(SEQ_START);
+	for (int k = 0; k < seq_steps; k++) n *= N(SEQ_OPS);
+	return n;
+}
+static void item_seq(uint64_t i)
+{
+	uint64_t x = i; int ops[8]; unsigned accepted = 0;
+	struct evhttp_uri *u;
+	for (int k = seq_steps - 1; k >= 0; k--) { ops[k] = (int)(x % N(SEQ_OPS)); x /= N(SEQ_OPS); }
+	int st = (int)(x % N(SEQ_START)); x /= N(SEQ_START);
+	unsigned fl = FLAGSETS[x];
+	live0 = mcx_alloc_live();
+	if (SEQ_START[st]) u = evhttp_uri_parse_with_flags(SEQ_START[st], fl);
+	else if ((u = evhttp_uri_new())) evhttp_uri_set_flags(u, fl);
+	if (mc_replaying()) printf("SEQUENCE flags=%#x start=%s%s\n", fl, SEQ_START[st] ? vis(SEQ_START[st]) : "evhttp_uri_new()", u ? "" : " (rejected)");
+	if (!u) { MC_COUNT("seq_start_rejected"); return; }
+	for (int k = 0; k < seq_steps; k++) {
+		const char *v = SEQ_OPS[ops[k]].v; int r = -2;
+		switch (SEQ_OPS[ops[k]].what) {
+		case 's': r = evhttp_uri_set_scheme(u, v); break;
+		case 'u': r = evhttp_uri_set_userinfo(u, v); break;
+		case 'h': r = evhttp_uri_set_host(u, v); break;
+		case 'n': r = evhttp_uri_set_port(u, SEQ_OPS[ops[k]].port); break;
+		case 'p': r = evhttp_uri_set_path(u, v); break;
+		case 'q': r = evhttp_uri_set_query(u, v); break;
+		case 'f': r = evhttp_uri_set_fragment(u, v); break;
+		case 'x': r = evhttp_uri_set_unixsocket(u, v); break;
+		}
+		MC_COUNT("setter_calls");
+		if (r == 0) accepted |= 1u << k; else MC_COUNT("setter_rejections");
+		if (mc_replaying()) printf("  step %d: set %c <- %s / %d -> %d\n", k, SEQ_OPS[ops[k]].what, vis(v), SEQ_OPS[ops[k]].port, r);
+	}
+	MC_COUNT("seq_sequences_judged");
+	judge_built(u, fl, i, accepted);
+}
+
 /* ------------------------------------------------------------------ */
 static const char *argp(int argc, char **argv, const char *name, const char *dflt)
 {
@@ -546,20 +621,41 @@ static const char *argp(int argc, char **argv, const char *name, const char *dfl
 	return dflt;
 }
 
+/* Items are visited through a fixed bijection of the index range (i -> i*K mod n,
+ * gcd(K,n)=1): a level that completes covers exactly the same set; a level cut
+ * off by its deadline has sampled the whole space evenly instead of one corner. */
+static uint64_t perm_n, perm_k;
+static void (*real_item)(uint64_t);
+static uint64_t gcd64(uint64_t a, uint64_t b) { while (b) { uint64_t t = a % b; a = b; b = t; } return a; }
+static void item_permuted(uint64_t i) { real_item((uint64_t)(((__uint128_t)i * perm_k) % perm_n)); }
+
 int main(int argc, char **argv)
 {
 	struct mc_config cfg = { .property = "C28", .init = init };
 	const char *dom = argp(argc, argv, "dom", "str");
 	if (!strcmp(dom, "str")) {
 		str_maxlen = atoi(argp(argc, argv, "len", "5"));
-		if (str_maxlen < 0 || str_maxlen > 9) { fprintf(stderr, "c28: bad len\n"); return 2; }
-		cfg.n_items = count_strings(NALPHA, str_maxlen); cfg.item = item_str;
+		str_prefix = argp(argc, argv, "prefix", "");
+		if (str_maxlen < 0 || str_maxlen > 9 || strlen(str_prefix) > 8) { fprintf(stderr, "c28: bad len/prefix\n"); return 2; }
+		ALPHA = argp(argc, argv, "alpha", ALPHA); NALPHA = (int)strlen(ALPHA);
+		str_exact = atoi(argp(argc, argv, "exact", "0"));
+		if (NALPHA < 1 || NALPHA > 16) { fprintf(stderr, "c28: bad alpha\n"); return 2; }
+		cfg.n_items = count_strings(NALPHA, str_maxlen); real_item = item_str;
+		if (str_exact) { cfg.n_items = 1; for (int k = 0; k < str_maxlen; k++) cfg.n_items *= (uint64_t)NALPHA; }
 	} else if (!strcmp(dom, "gram")) {
 		int sub = atoi(argp(argc, argv, "gsub", "0"));
 		n_path = sub ? Q_PATH : N(G_PATH); n_query = sub ? Q_QUERY : N(G_QUERY); n_frag = sub ? Q_FRAG : N(G_FRAG);
-		cfg.n_items = gram_count(); cfg.item = item_gram;
+		cfg.n_items = gram_count(); real_item = item_gram;
 	} else if (!strcmp(dom, "set")) {
-		cfg.n_items = set_count(); cfg.item = item_set;
+		cfg.n_items = set_count(); real_item = item_set;
+	} else if (!strcmp(dom, "seq")) {
+		seq_steps = atoi(argp(argc, argv, "steps", "3"));
+		if (seq_steps < 1 || seq_steps > 6) { fprintf(stderr, "c28: bad steps\n"); return 2; }
+		cfg.n_items = seq_count(); real_item = item_seq;
 	} else { fprintf(stderr, "c28: unknown dom %s\n", dom); return 2; }
+	perm_n = cfg.n_items;
+	for (perm_k = 2654435761ull % perm_n; perm_k < 2 || gcd64(perm_k, perm_n) != 1; perm_k++) ;
+	if (perm_n < 4) perm_k = 1;
+	cfg.item = item_permuted;
 	return mc_main(argc, argv, &cfg);
 }
